@@ -121,7 +121,30 @@ def _chunk_variant(args):
     return out
 
 
+def _chunk_cleanup(args):
+    """C10: executions that take time to wind up (monitor only)."""
+    prop, seed0, count = args
+    logging.disable(logging.CRITICAL)
+    out = Outcome()
+    for i in range(count):
+        rng = random.Random((seed0 << 20) + 900000 + i)
+        cfg, ins, plan = B.gen_cleanup(rng)
+        case = {'cleanup': True, 'cfg': cfg, 'ins': ins, 'plan': plan}
+        mark(case)
+        out.evaluations += 1
+        evs = B.run_real(cfg, ins, plan)
+        for (p, kind, detail) in B.monitor_cleanup(cfg, evs):
+            out.concrete.append({'case': case, 'what': f'{kind}: {detail}', 'observed': B.canon(evs),
+                                 'signature': {'kind': kind}})
+        out.traces_validated += 1
+        out.fingerprints.add(fingerprint(case))
+        out.count('cleanup:programs')
+    return out
+
+
 def _dispatch(args):
+    if args[0] == 'cleanup':
+        return _chunk_cleanup(args[1:])
     if args[0] == 'chain':
         return _chunk_chain(args[1:])
     if args[0] == 'variant':
@@ -139,6 +162,8 @@ def make(prop, flavor, quick_n, thorough_n):
             chunks += [('chain', prop, ctx.seed * 1000 + k, 100 if ctx.quick else 3000) for k in range(workers)]
         if prop == 'C09':
             chunks += [('variant', prop, ctx.seed * 1000 + k, 100 if ctx.quick else 3000) for k in range(workers)]
+        if prop == 'C10':
+            chunks += [('cleanup', prop, ctx.seed * 1000 + k, 100 if ctx.quick else 3000) for k in range(workers)]
         return run_chunks(_dispatch, chunks, workers, limit_s=60 if ctx.quick else 900)
 
     def search(ctx, outcome):
@@ -159,6 +184,11 @@ def make(prop, flavor, quick_n, thorough_n):
             bad = B.monitor_chain(case['cfg'], case['callers'], res, batches)
             return {'case': case, 'requests': {str(k): v for k, v in res.items()}, 'batches': batches,
                     'monitor': bad, 'fails': bool(bad)}
+        if case.get('cleanup'):
+            ins = [tuple(i) for i in case['ins']]
+            evs = B.run_real(case['cfg'], ins, case['plan'])
+            bad = B.monitor_cleanup(case['cfg'], evs)
+            return {'case': case, 'impl': B.canon(evs), 'monitor': bad, 'fails': bool(bad)}
         if case.get('variant'):
             calls = [tuple(i) for i in case['calls']]
             xs, a, b = B.run_variant(case['cfg'], calls, case['plan'], case['pick'])
